@@ -672,7 +672,7 @@ func init() {
 		ID:          "C20",
 		Level:       "exploration",
 		Technique:   "runtime monitoring: lock-step reference model (plain map + read-only view of specials/positionals) compared through Get for the whole name universe and through Walk after every step of exhaustive-short and random operation histories",
-		Rule:        "a case is a history of operations on one ExecEnv: Set/Unset over the name universe {a, A, _b1, IFS, HOME, @ * # ? - $ ! 0, 1, 2, 10, 01}, changes of Args/Opts, Expand of ${n}, ${n:-w}, ${n:+w}, ${n:=w}, ${n=w}, ${n:?w}, $((n=3)), $((n++)), $((--n)), $((n+=1)), $((1/0)), $((n=1/0)), and Eval of the same arithmetic forms; exhaustive: all histories of length <=3 (thorough <=4) over a 14-operation alphabet; random: histories of 5-60 operations. After every step Get of all 15 observable names and the Walk multiset are compared with the model, Args/Opts/Aliases and the AST given to Expand must be unchanged. distinct_nontrivial = distinct histories completed.",
+		Rule:        "a case is a history of operations on one ExecEnv: Set/Unset over the name universe {a, A, _b1, IFS, HOME, @ * # ? - $ ! 0, 1, 2, 10, 01}, changes of Args/Opts, Expand of removal operators that only read (${n%?} ${n%%*} ${n#?} ${n##*}, also on @ and *), of ${n}, ${n:-w}, ${n:+w}, ${n:=w}, ${n=w}, ${n:?w}, $((n=3)), $((n++)), $((--n)), $((n+=1)), $((1/0)), $((n=1/0)), and Eval of the same arithmetic forms; exhaustive: all histories of length <=3 (thorough <=4) over an 18-operation alphabet; random: histories of 5-60 operations. After every step Get of all 15 observable names and the Walk multiset are compared with the model, Args/Opts/Aliases and the AST given to Expand must be unchanged. distinct_nontrivial = distinct histories completed.",
 		Assumptions: []string{"the process environment of the worker is fixed (cleared) before NewExecEnv", "arithmetic effects come from refarith, parameter-expansion effects from the POSIX table; steps outside what C defines end the history unjudged"},
 		Gen:         c20Gen,
 		Replay:      func(c *core.Ctx, raw []byte) { core.ReplayOne(c, raw, c20Exec) },
